@@ -200,9 +200,9 @@ theorem desc_objEq {F : Facts} {v2 : Bool} {u1 u2 : U} {ob1 ob2 : Obj} {g1 g2 : 
       (fun h => by rw [k1] at h; cases h), (fun h => by rw [k1] at h; cases h),
       fun _ => ⟨v1.trans (ev.trans v2'.symm), hp, hr⟩, (fun h => by rw [k1] at h; cases h)⟩
   case iface.iface ms ms' =>
-    exact ⟨d1.trans d2.symm, (fun h => by rw [d1] at h; simp at h), (fun h => by rw [d1] at h; cases h),
-      (fun h => by rw [d1] at h; cases h), (fun h => by rw [d1] at h; cases h), (fun h => by rw [d1] at h; cases h),
-      (fun h => by rw [d1] at h; cases h)⟩
+    exact ⟨d1.1.trans d2.1.symm, (fun h => by rw [d1.1] at h; simp at h), (fun h => by rw [d1.1] at h; cases h),
+      (fun h => by rw [d1.1] at h; cases h), (fun h => by rw [d1.1] at h; cases h), (fun h => by rw [d1.1] at h; cases h),
+      (fun h => by rw [d1.1] at h; cases h)⟩
   case named.named a _ _ _ b _ _ _ =>
     have hl := elem_linked d1.2 d2.2 he
     exact ⟨d1.1.trans d2.1.symm, (fun h => by rw [d1.1] at h; simp at h), (fun h => by rw [d1.1] at h; cases h),
